@@ -47,7 +47,7 @@ PLAN = {
                   # destinations failing -- also with non-Exception exceptions that reach the application -- while blocks exit
                   dict(feat={"finish", "ctx", "run", "task", "ext"}, ndest=2, init=[1, 2], maxlen=40, maxblocks=8, dfault=0.15, abort=0.12,
                        weights={"EnterCtx": 1.5, "EnterRun": 1.5, "EnterWith": 2.5, "Exit": 2.5})],
-        deferred=True),
+        deferred=True, route=True),
     "C05": dict(
         mc=[("MC_Conc.cfg", {"MaxMsgs": 5, "MaxActs": 3})],
         sim=[("MC_Conc.cfg", [1], 1, {"NCtx": 4, "MaxActs": 5, "MaxMsgs": 10, "MaxBlocks": 3, "MaxDepth": 3, "Feat": '{"spawn", "ctx", "run", "finish", "elsewhere"}'})],
